@@ -214,6 +214,73 @@ def inline_new_functions(raw, base, log):
         log.append("inlined new private function %s at %d call site(s)" % (p, n))
 
 
+ADT_TABLE = os.path.join(HERE, "tables", "baseline_adts.json")
+_BASE_ADTS = None
+
+
+def baseline_adts():
+    global _BASE_ADTS
+    if _BASE_ADTS is None:
+        try:
+            with open(ADT_TABLE) as f:
+                _BASE_ADTS = json.load(f)
+        except OSError:
+            _BASE_ADTS = {}
+    return _BASE_ADTS
+
+
+def adt_table(raw):
+    out = {}
+    for a in raw["adts"]:
+        if a.get("kind") != "Struct" or len(a.get("variants", [])) != 1:
+            continue
+        fs = a["variants"][0]["fields"]
+        # serde-derived wire structs are excluded: their field names are the wire format
+        out[a["path"]] = [[f["name"], f["ty"], not str(f.get("vis", "")).startswith("Public")] for f in fs]
+    return out
+
+
+def rename_fields(raw, base, log):
+    """A private field that was merely renamed (same struct, same position, same type, every other
+    field unchanged or renamed likewise) is mapped back to the name the rules know. Structs of the
+    JSON wire format (module jsontypes) are left alone: there the name is behaviour."""
+    cur = adt_table(raw)
+    ren = {}
+    for path, fields in cur.items():
+        if path.startswith("jsontypes::") or path not in base:
+            continue
+        old = base[path]
+        if len(old) != len(fields) or [f[1] for f in old] != [f[1] for f in fields]:
+            continue
+        for i, (new_f, old_f) in enumerate(zip(fields, old)):
+            if new_f[0] != old_f[0] and old_f[2] and new_f[2] and old_f[0] not in [f[0] for f in fields]:
+                ren[(path, i)] = (new_f[0], old_f[0])
+    if not ren:
+        return
+    adts = set(p for p, _ in ren)
+
+    def walk(o):
+        if isinstance(o, list):
+            for x in o:
+                walk(x)
+        elif isinstance(o, dict):
+            if o.get("k") == "field" and o.get("adt") in adts and (o["adt"], o.get("i")) in ren:
+                o["n"] = ren[(o["adt"], o["i"])][1]
+            if o.get("k") == "agg" and o.get("ak") == "adt" and o.get("adt") in adts and isinstance(o.get("fields"), list):
+                o["fields"] = [ren.get((o["adt"], i), (None, n))[1] for i, n in enumerate(o["fields"])]
+            for v in o.values():
+                walk(v)
+
+    walk(raw["bodies"])
+    for a in raw["adts"]:
+        if a["path"] in adts:
+            for i, f in enumerate(a["variants"][0]["fields"]):
+                if (a["path"], i) in ren:
+                    f["name"] = ren[(a["path"], i)][1]
+    for (path, i), (n, o) in sorted(ren.items()):
+        log.append("private field %s.%s is treated as the renamed %s (same position and type)" % (path, n, o))
+
+
 def apply(text):
     """text of a fact file -> (normalised raw dict, log)."""
     base = baseline()
@@ -226,6 +293,9 @@ def apply(text):
         raw = json.loads(rename_text(text, ren))
         for n, m in sorted(ren.items()):
             log.append("function %s is treated as the renamed %s (same parent, kind and signature)" % (n, m))
+    ba = baseline_adts()
+    if ba:
+        rename_fields(raw, ba, log)
     inline_new_functions(raw, base, log)
     return raw, log
 
@@ -241,3 +311,11 @@ if __name__ == "__main__":
     with open(TABLE, "w") as f:
         json.dump(tab, f, indent=0, sort_keys=True)
     print("wrote", TABLE, len(tab), "functions")
+    at = {}
+    for cfg in ("ram", "default"):
+        p, th, _ = extract.facts_path(cfg)
+        with open(p) as f:
+            at.update(adt_table(json.load(f)))
+    with open(ADT_TABLE, "w") as f:
+        json.dump(at, f, indent=0, sort_keys=True)
+    print("wrote", ADT_TABLE, len(at), "structs")
